@@ -4101,7 +4101,7 @@ def speigs(a, charge_sector, k, *args, **kwargs):
     if ret_eigv:
         V = []
         for j in range(V_flat.shape[1]):
-            U = zeros([a.legs[0]], dtype=a.dtype, qtotal=charge_sector)
+            U = zeros([a.legs[0]], dtype=V_flat.dtype, qtotal=charge_sector)  # complex for non-hermitian `a`
             U._data = [V_flat[:, j]]
             U._qdata = np.array([[qi]], dtype=np.intp)
             if len(piped_axes) > 0:
